@@ -669,10 +669,16 @@ def run(ck):
                    'zlib (not modelled)', 'RDKit (reference-pack comparison only)']
     ck.assumptions += ['coordinates enter the Pack model as the 4 bytes produced by double_to_float16 (F16 is modelled and tied separately)',
                        'reading outside the byte string is undefined behaviour in the compiled code; model and transpiled code treat it as an error']
-    ck.extra['rule'] = ('correspondence: seed + boundary molecules (numbers around 16/256/4095, chains with every bond count mod 8 and all orders, 15 neighbours, every '
-                        'element x extreme isotopes x random charge/H/radical, corpus sample with renumbering) -> bytes of pack, pack size, raw unpack result and pack_len '
-                        'compared with the Coq model by vm_compute; reactions for all role-size triples 0..2 plus larger; non-trivial = more than one atom. '
-                        'search: API round trip compressed/uncompressed, pack bytes against an independent re-implementation of the published layout (bit string from the docstring), half-float coordinates, reference packs vs lipophilicity.csv through RDKit; after a correspondence failure the same oracles run on the disagreeing molecules and renumbered variants')
+    ck.extra['rule'] = ('correspondence: seed + boundary molecules (numbers around 16/256/4095, 300 atoms, chains with every bond count mod 8 and all orders, 15 neighbours, every '
+                        'element x extreme isotopes x random charge/H/radical, corpus sample with renumbering) -> bytes of pack, pack size, bytes of the declarative layout_v2, the '
+                        'hypothesis pack_ok, raw unpack result and pack_len compared with / evaluated in the Coq model by vm_compute; malformed packs: truncations at every block '
+                        'border, single corrupted bytes (decodes / IndexError / KeyError must agree; uninitialised reads and invalid element numbers are counted as undefined), every '
+                        'bit of the header cis/trans count, molecules outside the limits (ValueError); reactions for all role-size triples 0..2 plus larger; half floats on exact '
+                        'dyadics; non-trivial = more than one atom. '
+                        'search: API round trip compressed/uncompressed, pack bytes against an independent re-implementation of the published layout (bit string from the docstring), '
+                        'half-float coordinates, a 4095-atom pack, reference packs vs lipophilicity.csv through RDKit; after a correspondence failure the same oracles run on the '
+                        'disagreeing molecules and renumbered variants')
+    t_start = __import__('time').time()
     proved = common.standard_proof_steps(ck, translators=['elements'])
     rng = random.Random(ck.seed)
     try:
@@ -687,6 +693,7 @@ def run(ck):
     import time
     t0 = time.time()
     timing = ck.extra.setdefault('timing_s', {})
+    timing['proof_steps_and_transpile'] = round(t0 - t_start, 1)
     mols = boundary_molecules(rng, 60 if ck.tier == 'quick' else 1200)
     timing['generate'] = round(time.time() - t0, 1); t0 = time.time()
     corr(ck, mods['unpack'], mols)
